@@ -11,7 +11,7 @@ func init() {
 	register(&propDef{
 		id: "C12", title: "Passivation only removes actors that are truly idle",
 		technique: "guard-dominance over the CFG of tryPassivation and the manager's trigger, lockset on the manager state with caller-holds propagation, dataflow of the deadline (latest activity + timeout), constant-table check of the coalescing slack",
-		explanation: "Decides: (1) in tryPassivation every call of doStop is dominated by the long-lived test, the system-stopping test, the skip-next CAS and the stopping/suspended/paused tests, and the skip-next CAS is repeated after stopLocker was taken; (2) manager: entries, queue and every passivationEntry field are accessed only under the manager's mutex (helpers only with it held); in trigger the deadline is re-evaluated under the lock after the timer fired ('deadline still in the future' returns) and that test dominates the call into passivate; Pause removes the entry from the heap and marks it paused, Touch ignores paused entries, nextEntry skips paused entries; an entry is queued on the deadline heap only after its deadline was recomputed from the latest activity (Register, Resume, re-queue); (3) the deadline is computed as latest-activity + timeout; markActivity records the receive time unconditionally (the Touch may be coalesced, the timestamp is not); handleReceived marks activity before invoking the handler; (4) message-count strategy: the baseline is processed+1 at registration; (5) passivation stops through doStop under stopLocker (PostStop once, C06).",
+		explanation: "Decides: (1) in tryPassivation every call of doStop is dominated by the long-lived test, the system-stopping test, the skip-next CAS and the stopping/suspended/paused tests, and the skip-next CAS is repeated after stopLocker was taken; (2) manager: entries, queue and every passivationEntry field are accessed only under the manager's mutex (helpers only with it held); in trigger the deadline is re-evaluated under the lock after the timer fired ('deadline still in the future' returns) and that test dominates the call into passivate; Pause removes the entry from the heap and marks it paused, Touch ignores paused entries, nextEntry skips paused entries; an entry is queued on the deadline heap only after its deadline was recomputed from the latest activity (Register, Resume, re-queue); (3) the deadline is computed as latest-activity + timeout; markActivity records the receive time unconditionally (the Touch may be coalesced, the timestamp is not); handleReceived marks activity before invoking the handler; (4) message-count strategy: the baseline is processed+1 at registration; (5) passivation stops through doStop under stopLocker (PostStop once, C06). Added after seed C12b: the Touch-coalescing timestamp (lastPassivationTouch) is written only on a path that also calls Touch — it is the time of the last Touch, not of the last message.",
 		assumptions: []string{"timing races between a message that arrives and the deadline check (the window between releasing the manager lock and tryPassivation)", "wall-clock behaviour of timers"},
 		minObl:     57,
 		run:        runC12,
@@ -298,6 +298,40 @@ func runC12(c *Ctx) {
 		store := mf.CallOnField(c.Field("actor", "PID", "latestReceiveTimeNano"), "Store")
 		w := mf.ExitReachable(nil, store, nil, nil)
 		c.Check(w == nil, "markActivity/records-always", "every handled message records its receive time (Touch may be coalesced, the timestamp is not)", c.P.Pos(ma.Decl.Pos()), mf.describe(w))
+		// coalescing, not debouncing: lastPassivationTouch is the time of the last Touch, so it changes only together
+		// with a Touch. If every message overwrote it, a busy actor (gaps shorter than the interval) would never
+		// refresh its deadline and be passivated in the middle of a burst.
+		lastTouch := c.Field("actor", "PID", "lastPassivationTouch")
+		touch := mf.CallTo(c.FuncObj("actor", "passivationManager.Touch"))
+		nW := 0
+		okTouch := true
+		detail := ""
+		for _, a := range mf.FindOnce(func(n ast.Node) bool {
+			call, ok := n.(*ast.CallExpr)
+			if !ok {
+				return false
+			}
+			fv, op, _ := atomicOp(mf.Info, call)
+			return fv == lastTouch && op != "Load"
+		}) {
+			nW++
+			_, op, _ := atomicOp(mf.Info, a.N.(*ast.CallExpr))
+			var w2 *Witness
+			if op == "CompareAndSwap" || op == "CAS" {
+				won := mf.CondEdges(func(e ast.Expr) bool { return e == a.N.(ast.Expr) }, true)
+				if len(won) == 0 {
+					okTouch, detail = false, "the CAS result is not tested"
+					continue
+				}
+				w2 = mf.AfterEdgesMustPass(won, touch, nil)
+			} else {
+				w2 = mf.MustFollow([]*Atom{a}, touch, nil)
+			}
+			if w2 != nil {
+				okTouch, detail = false, mf.describe(w2)
+			}
+		}
+		c.Check(okTouch && nW > 0, "markActivity/touch-stamp-moves-only-with-touch", "the coalescing timestamp is written only on a path that also calls Touch (it is the time of the last Touch, not of the last message)", c.P.Pos(ma.Decl.Pos()), detail)
 		hr := c.Func("actor", "PID.handleReceived")
 		hf := c.NewFlow(hr)
 		behavior := c.Named("actor", "Behavior")
